@@ -10,3 +10,4 @@ from . import p2p  # noqa
 from . import ec  # noqa
 from . import der  # noqa
 from . import bip340  # noqa
+from . import fs  # noqa
